@@ -5,6 +5,7 @@ import collections
 import random
 
 from mbt import tlc
+from mbt.framework import Machinery
 from mbt.bind import iterqueue as IB
 
 INV = ['TypeOK', 'NoInternalError', 'NoDuplicate', 'RoundComplete', 'CleanStart', 'TokenConservation']
@@ -110,6 +111,25 @@ def c17(ck, replay=None):
                                       constraint='Progress', postcondition='Report', deadlock=False), trs)
                         for (m, nc, k, r, qb), trs in sorted(pg.items())],
                        sig_of=lambda t, v: {'where': 'processes'})
+    # renew() on helper queues that DELIVER late (RenewTokens.tla): design leg + what the renewing process really did
+    def rt_cfg(m, rounds, invariants=(), properties=(), count=True, spec='FairSpec', **kw):
+        return tlc.cfg_text(spec=spec, constants=dict(M=m, Rounds=rounds, CountTokens=count), invariants=invariants,
+                            properties=properties, **kw)
+
+    ck.l1('RenewTokens/renew recycles every token although deliveries lag', 'RenewTokens',
+          rt_cfg(3, 3, ['TypeOK', 'NothingLeaks'], ['EveryRoundRenewed']), may_skip=('Next', 'Finished'), coverage=False)
+    ck.sensitive('renew() recycles "until _used_lids.empty()" (tokens counted but not yet delivered stay behind)', 'RenewTokens',
+                 rt_cfg(2, 2, ['NothingLeaks'], count=False, spec='Spec'), 'invariant', 'NothingLeaks')
+    ck.trap('Trap_RenewWaitsForDelivery', 'RenewTokens', rt_cfg(2, 2, ['Trap_RenewWaitsForDelivery'], spec='Spec'))
+    rg = collections.defaultdict(list)
+    for t in pout.get('renew_traces', []):
+        rg[(t['p']['m'], t['p']['rounds'])].append(t)
+    if not rg and not ck.violations:
+        raise Machinery('C17: no renew() trace was recorded by a renewing consumer process')
+    ck.validate_groups('renew() called by a consumer process (also on late-delivering helper queues): every token taken out of _used_lids',
+                       'RenewTokensTrace',
+                       [(rt_cfg(m, r, spec='TraceSpec', constraint='Progress', postcondition='Report', deadlock=False), trs)
+                        for (m, r), trs in sorted(rg.items())], sig_of=lambda t, v: {'where': 'renew'})
     ck.assumptions += ['thread queues under detsched (exact linearization order); multiprocessing queues: sampled OS '
                        'schedules, per-process event order only, TLC searches the interleaving']
     ck.finish_rc = ck.finish(rule='m suppliers x n consumers x items x rounds x queue bound x schedule seeds; every queue '
